@@ -301,6 +301,18 @@ func genC03(w *World, res *CheckResult) {
 			}
 		}
 	}
+	// static result type of arithmetic: checker.combined against the dynamic result kind of the helpers (cells shared with C14)
+	{
+		tmp := &CheckResult{}
+		e14 := NewExec(w)
+		e14.SafeMode = func(*ssa.Function) string { return "panics" }
+		for _, n := range []string{"toInt", "toInt64", "toFloat64", "negate", "exponent", "equal", "less", "more", "lessOrEqual", "moreOrEqual", "add", "subtract", "multiply", "divide", "modulo"} {
+			w.forceInline["vm."+n] = true
+		}
+		genC14Checker(w, e14, tmp)
+		res.Obls = append(res.Obls, selectObls(e14.obls, `^checker\.combined\[`)...)
+		res.Functions = append(res.Functions, tmp.Functions...)
+	}
 	res.Assumptions = append(res.Assumptions,
 		"typing assumption for the operands (the induction hypothesis of soundness): a child whose static type is T evaluates to a value of dynamic type exactly T (nil for the nil literal); interface-typed operands are outside the statement ('all its operands are statically typed')",
 		"fragment: binary operators == < >= + - * / % ** .. and contains over the universe {int, int64, uint8, float32, float64, string, bool, nil, named int, named string}; the remaining numeric kinds behave like these in the checker (classification by reflect.Kind) and are covered helper-side by C14; unary, index, slice, call, builtin and member typing rules, result directives and the 'rejects wherever the violation sits' direction are not decided here",
